@@ -5,6 +5,7 @@ CONSTANTS Mode = "obj"
  SelfLoops = TRUE
  InitAfterOwn = TRUE
  Fixed = TRUE
+ ResetCurFn = TRUE
  Emit = FALSE
 INVARIANTS ObjRefines FnRefines AWellFormed
 CHECK_DEADLOCK FALSE
